@@ -272,5 +272,57 @@ def r05_5(ctx):
     ctx.findings[:] = [f for f in ctx.findings if not (f.rule == ctx._rule and f.construct in dropped)]
 
 
+def r05_6(ctx):
+    """R05.6 (a) set_value's `same value, nothing to do` shortcut never applies to choice members (picking the current
+    default selection must still record the pick); (b) Choice.unset_value clears the pick whenever a pick or a mode is
+    set; (c) members are registered after the `if` blocks inside the choice were flattened away; (d) reading the
+    selection never changes the recorded pick."""
+    repo = ctx.repo
+    f = repo.func(f"{CORE}:Symbol.set_value")
+    ctx.analysed(f.qual)
+    fl = Flow(f.node).run()
+    first_valid = min((n.lineno for n in ast.walk(f.node) if isinstance(n, ast.Call) and ast.unparse(n.func) == "self.value_is_valid"), default=10**9)
+    early = [n for n in ast.walk(f.node) if isinstance(n, ast.Return) and n.lineno < first_valid]
+    construct = "Symbol.set_value/no-change shortcut is not taken for choice members"
+    bad = [r for r in early if ("self.choice", False) not in (fl.guards_at(r) or set())]
+    (ctx.bad(construct, f"the early return at line {bad[0].lineno} can be taken for a choice member ({sorted(fl.guards_at(bad[0]) or [])}): re-picking the member that "
+             "is currently selected by default is not recorded, so an older hidden pick wins when it becomes visible again", f.loc(bad[0]))
+     if bad else ctx.ok(construct, f.loc(early[0]) if early else f.loc(), shortcuts=len(early)))
+    u = repo.func(f"{CORE}:Choice.unset_value")
+    ctx.analysed(u.qual)
+    cl = [n for n in ast.walk(u.node) if isinstance(n, ast.Assign) and any(ast.unparse(t) == "self._user_selection" for t in n.targets)]
+    construct = "Choice.unset_value/the pick is cleared whenever there is a pick"
+    ok = False
+    if cl:
+        p = repo.parent(cl[0])
+        if isinstance(p, ast.If):
+            t = p.test
+            disj = [ast.unparse(v) for v in t.values] if isinstance(t, ast.BoolOp) and isinstance(t.op, ast.Or) else [ast.unparse(t)]
+            ok = any(d in ("self._user_selection", "self._user_selection is not None") for d in disj)
+        elif p is u.node:
+            ok = True
+    (ctx.ok(construct, u.loc(cl[0]) if cl else u.loc()) if ok else
+     ctx.bad(construct, "the pick is only cleared when a user *mode* is set; a choice picked through a member keeps its selection across unset / a replacing load",
+             u.loc(cl[0]) if cl else u.loc()))
+    fin = repo.func(f"{CORE}:Kconfig._finalize_node")
+    ctx.analysed(fin.qual)
+    top = fin.node.body
+    rm = [i for i, s in enumerate(top) if any(isinstance(x, ast.Call) and ast.unparse(x.func) == "_remove_ifs" for x in ast.walk(s))]
+    fc = [i for i, s in enumerate(top) if any(isinstance(x, ast.Call) and ast.unparse(x.func) == "_finalize_choice" for x in ast.walk(s))]
+    construct = "Kconfig._finalize_node/choice members registered after nested ifs were removed"
+    ok = bool(rm) and bool(fc) and max(rm) < min(fc)
+    (ctx.ok(construct, fin.loc(top[fc[0]]) if fc else fin.loc()) if ok else
+     ctx.bad(construct, "_finalize_choice runs before _flatten/_remove_ifs: members written inside `if ... endif` within a choice are still hidden under the if node, "
+             "never become choice symbols and can all be y", fin.loc(top[fc[0]]) if fc else fin.loc()))
+    for name in ("_selection", "_selection_from_defaults", "bool_value", "visibility", "selection", "_assignable"):
+        m = repo.func(f"{CORE}:Choice.{name}")
+        ctx.analysed(m.qual)
+        w = [n for n in ast.walk(m.node) if isinstance(n, (ast.Assign, ast.AugAssign)) and any(
+            isinstance(t, ast.Attribute) and t.attr in ("_user_selection", "_user_value") for t in (n.targets if isinstance(n, ast.Assign) else [n.target]))]
+        construct = f"Choice.{name}/evaluation does not modify the recorded pick"
+        (ctx.bad(construct, f"`{ast.unparse(w[0])}` inside an evaluator: merely reading the choice while the pick is hidden forgets the pick", m.loc(w[0]))
+         if w else ctx.ok(construct, m.loc(), nontrivial=False))
+
+
 def rules():
-    return [("R05.1", r05_1, 2), ("R05.2", r05_2, 4), ("R05.3", r05_3, 3), ("R05.4", r05_4, 3), ("R05.5", r05_5, 6)]
+    return [("R05.1", r05_1, 2), ("R05.2", r05_2, 4), ("R05.3", r05_3, 3), ("R05.4", r05_4, 3), ("R05.5", r05_5, 6), ("R05.6", r05_6, 9)]
